@@ -104,6 +104,16 @@ def make_Select(source: ast.expr, selection: ast.expr):
     )
 
 
+def _lambda_binders(args: ast.arguments) -> List[ast.arg]:
+    "All the names a lambda binds: positional, keyword-only, `*args` and `**kwargs`"
+    binders = list(getattr(args, "posonlyargs", [])) + list(args.args) + list(args.kwonlyargs)
+    if args.vararg is not None:
+        binders.append(args.vararg)
+    if args.kwarg is not None:
+        binders.append(args.kwarg)
+    return binders
+
+
 def make_binders_unique(a: ast.AST) -> ast.AST:
     """Rename every lambda argument whose name is bound more than once in the query, or
     that is also used as a free variable, to a fresh unique name.
@@ -120,7 +130,7 @@ def make_binders_unique(a: ast.AST) -> ast.AST:
         nothing needs renaming).
     """
     bound: List[str] = [
-        arg.arg for n in ast.walk(a) if isinstance(n, ast.Lambda) for arg in n.args.args
+        arg.arg for n in ast.walk(a) if isinstance(n, ast.Lambda) for arg in _lambda_binders(n.args)
     ]
 
     class find_free(ast.NodeVisitor):
@@ -129,7 +139,7 @@ def make_binders_unique(a: ast.AST) -> ast.AST:
             self._bound: List[str] = []
 
         def visit_Lambda(self, node: ast.Lambda):
-            names = [arg.arg for arg in node.args.args]
+            names = [arg.arg for arg in _lambda_binders(node.args)]
             self._bound.extend(names)
             self.visit(node.body)
             del self._bound[len(self._bound) - len(names) :]
@@ -151,21 +161,31 @@ def make_binders_unique(a: ast.AST) -> ast.AST:
         def visit_Lambda(self, node: ast.Lambda):
             mapping = [
                 (arg.arg, arg_name() if arg.arg in clashing else arg.arg)
-                for arg in node.args.args
+                for arg in _lambda_binders(node.args)
             ]
             # Default values are evaluated outside the lambda
             new_defaults = [self.visit(d) for d in node.args.defaults]
+            new_kw_defaults = [
+                None if d is None else self.visit(d) for d in node.args.kw_defaults
+            ]
             self._stack.extend(mapping)
             new_body = self.visit(node.body)
             del self._stack[len(self._stack) - len(mapping) :]
+            new_names = iter([ast.arg(arg=new, annotation=None) for _, new in mapping])
             new_args = copy.copy(node.args)
-            new_args.args = [ast.arg(arg=new, annotation=None) for _, new in mapping]
+            if hasattr(node.args, "posonlyargs"):
+                new_args.posonlyargs = [next(new_names) for _ in node.args.posonlyargs]
+            new_args.args = [next(new_names) for _ in node.args.args]
+            new_args.kwonlyargs = [next(new_names) for _ in node.args.kwonlyargs]
+            new_args.vararg = next(new_names) if node.args.vararg is not None else None
+            new_args.kwarg = next(new_names) if node.args.kwarg is not None else None
             new_args.defaults = new_defaults
+            new_args.kw_defaults = new_kw_defaults
             return ast.Lambda(args=new_args, body=new_body)
 
         def visit_Call(self, node: ast.Call):
             old_names = (
-                [arg.arg for arg in node.func.args.args]
+                [arg.arg for arg in _lambda_binders(node.func.args)]
                 if isinstance(node.func, ast.Lambda)
                 else []
             )
@@ -174,7 +194,9 @@ def make_binders_unique(a: ast.AST) -> ast.AST:
             if len(old_names) > 0 and len(new_node.keywords) > 0:
                 # The lambda is called with keyword arguments - they follow the renaming.
                 assert isinstance(new_node.func, ast.Lambda)
-                renamed = dict(zip(old_names, [arg.arg for arg in new_node.func.args.args]))
+                renamed = dict(
+                    zip(old_names, [arg.arg for arg in _lambda_binders(new_node.func.args)])
+                )
                 new_node.keywords = [
                     ast.keyword(arg=renamed.get(k.arg, k.arg), value=k.value)  # type: ignore
                     for k in new_node.keywords
@@ -526,20 +548,32 @@ class simplify_chained_calls(FuncADLNodeTransformer):
 
         Also, if this is a First() call, then move the call inside it.
         """
-        if type(call_node.func) is ast.Lambda:
+        if (
+            type(call_node.func) is ast.Lambda
+            and call_node.func.args.vararg is None
+            and call_node.func.args.kwarg is None
+        ):
             arg_asts = [self.visit(a) for a in call_node.args]
             keyword_asts = {k.arg: self.visit(k.value) for k in call_node.keywords}
             # Arguments that are not given take the lambda's own default value
             lambda_args = call_node.func.args
-            n_no_default = len(lambda_args.args) - len(lambda_args.defaults)
+            positional = list(getattr(lambda_args, "posonlyargs", [])) + list(lambda_args.args)
+            n_no_default = len(positional) - len(lambda_args.defaults)
             default_asts = {
                 a_name.arg: self.visit(d)
-                for a_name, d in zip(lambda_args.args[n_no_default:], lambda_args.defaults)
+                for a_name, d in zip(positional[n_no_default:], lambda_args.defaults)
             }
+            default_asts.update(
+                {
+                    a_name.arg: self.visit(d)
+                    for a_name, d in zip(lambda_args.kwonlyargs, lambda_args.kw_defaults)
+                    if d is not None
+                }
+            )
             with stack_frame(self._arg_stack):
                 for d_name, arg in default_asts.items():
                     self._arg_stack.define_name(d_name, arg)
-                for a_name, arg in zip(call_node.func.args.args, arg_asts):
+                for a_name, arg in zip(positional, arg_asts):
                     self._arg_stack.define_name(a_name.arg, arg)
                 for k_name, arg in keyword_asts.items():
                     self._arg_stack.define_name(k_name, arg)
@@ -562,7 +596,7 @@ class simplify_chained_calls(FuncADLNodeTransformer):
         inner `x`.
         """
         with stack_frame(self._arg_stack):
-            for a in node.args.args:
+            for a in _lambda_binders(node.args):
                 self._arg_stack.define_name(a.arg, ast.Name(a.arg, ast.Load()))
             return self.generic_visit(node)
 
